@@ -454,9 +454,15 @@ func checkC19(c *Ctx) Meta {
 			if !sl.hasCallTo("github.com/syndtr/goleveldb/leveldb/util.BytesPrefix") || !(isInnerKey(sl) || isPathPrefix(sl)) {
 				bad = true
 			}
-			// and the path is the bucket's own
+			// and the path is the bucket's own: a direct use of b.path, or innerKey called on the receiver
 			if recv := f.Signature.Recv(); recv != nil && strings.Contains(recv.Type().String(), "Bucket") {
-				if !sl.hasField(tLDBBucket, "path") && !sl.hasField(tLDBReadBucket, "path") {
+				own := sl.hasField(tLDBBucket, "path") || sl.hasField(tLDBReadBucket, "path")
+				for v := range sl.vals {
+					if cl, ok := v.(*ssa.Call); ok && callName(cl) == "innerKey" && len(f.Params) > 0 && callRecv(cl) == ssa.Value(f.Params[0]) {
+						own = true
+					}
+				}
+				if !own {
 					bad = true
 				}
 			}
@@ -532,13 +538,24 @@ func checkC19(c *Ctx) Meta {
 		}
 		sa, sb := normSeq(a), normSeq(b)
 		// the only allowed difference: which leveldb handle is used
-		for i := range sa {
-			sa[i] = strings.ReplaceAll(strings.ReplaceAll(sa[i], "leveldb.Transaction)", "leveldb.H)"), "field tx", "field h")
-			sa[i] = strings.ReplaceAll(sa[i], "field tr", "field h")
+		normAll := func(in []string) []string {
+			var out []string
+			for _, x := range in {
+				x = strings.ReplaceAll(x, "LDBReadBucket", "B")
+				x = strings.ReplaceAll(x, "LDBBucket", "B")
+				x = strings.ReplaceAll(x, "leveldb.Transaction)", "leveldb.H)")
+				x = strings.ReplaceAll(x, "leveldb.DB)", "leveldb.H)")
+				if x == "field tx" {
+					continue // b.tx.tr is two hops, b.ldb one: the handle
+				}
+				if x == "field tr" || x == "field ldb" {
+					continue // which handle is used is C19-TX's business
+				}
+				out = append(out, x)
+			}
+			return out
 		}
-		for i := range sb {
-			sb[i] = strings.ReplaceAll(strings.ReplaceAll(sb[i], "leveldb.DB)", "leveldb.H)"), "field ldb", "field h")
-		}
+		sa, sb = normAll(sa), normAll(sb)
 		ja := strings.Join(dedupAdjacent(sa), "\n")
 		jb := strings.Join(dedupAdjacent(sb), "\n")
 		if ja == jb {
